@@ -30,11 +30,14 @@ func (h HNode) export() *iavl.ExportNode {
 		return nil
 	}
 	n := &iavl.ExportNode{Version: h.Version, Height: h.Height}
+	// exact-capacity copies: an out-of-bounds re-slice inside the importer must fault, not read spare capacity
 	if !h.KeyNil {
-		n.Key = append([]byte{}, h.Key...)
+		n.Key = make([]byte, len(h.Key))
+		copy(n.Key, h.Key)
 	}
 	if !h.ValueNil {
-		n.Value = append([]byte{}, h.Value...)
+		n.Value = make([]byte, len(h.Value))
+		copy(n.Value, h.Value)
 	}
 	return n
 }
